@@ -97,6 +97,9 @@ Qed.
 Lemma ceil_div_some total L e : ceil_div total L = Ok (Some e) -> exists t2, total = NFin t2 /\ e = cdiv t2 (2 * L).
 Proof. destruct total; cbn; intros H; inversion H; eauto. Qed.
 
+Lemma guarded_ceil_div_some clash total L e : guarded_ceil_div clash total L = Ok (Some e) -> exists t2, total = NFin t2 /\ e = cdiv t2 (2 * L).
+Proof. unfold guarded_ceil_div. destruct clash; [discriminate|]. apply ceil_div_some. Qed.
+
 Theorem validate_sound fs md : validate is_url fs md = Ok tt -> sound md.
 Proof.
   unfold validate. intros H.
@@ -152,7 +155,7 @@ Proof.
     destruct exp as [e|]; [|cbn in H; discriminate].
     destruct (Z.of_nat (length pieces) / 20 =? e) eqn:Ecount; cbn [negb] in H;
       [|destruct (Z.abs e >=? huge_bound); discriminate].
-    apply ceil_div_some in Hexp as (t2 & Hn & ->).
+    apply guarded_ceil_div_some in Hexp as (t2 & Hn & ->).
     exists lv. split; [first [exact Elen|reflexivity]|]. split; [first [exact Efiles|reflexivity]|]. split.
     + unfold nonneg_number. cbn [run_check] in S1c. rewrite Hn in *. lia.
     + exists t2. split; [exact Hn|lia].
@@ -163,13 +166,13 @@ Proof.
       destruct exp as [e|]; [|cbn in H; discriminate].
       destruct (Z.of_nat (length pieces) / 20 =? e) eqn:Ecount; cbn [negb] in H;
         [|destruct (Z.abs e >=? huge_bound); discriminate].
-      apply ceil_div_some in Hexp as (t2 & Hn & ->).
+      apply guarded_ceil_div_some in Hexp as (t2 & Hn & ->).
       exists l. split; [left; first [exact Efiles|reflexivity]|]. split; [first [exact Elen|reflexivity]|]. exists t2. split; [exact Hn|lia].
     + apply bind_ok in H as ([] & _ & H). apply bind_ok in H as (exp & Hexp & H).
       destruct exp as [e|]; [|cbn in H; discriminate].
       destruct (Z.of_nat (length pieces) / 20 =? e) eqn:Ecount; cbn [negb] in H;
         [|destruct (Z.abs e >=? huge_bound); discriminate].
-      apply ceil_div_some in Hexp as (t2 & Hn & ->).
+      apply guarded_ceil_div_some in Hexp as (t2 & Hn & ->).
       exists l. split; [right; first [exact Efiles|reflexivity]|]. split; [first [exact Elen|reflexivity]|]. exists t2. split; [exact Hn|lia].
 Qed.
 
